@@ -28,8 +28,9 @@ BOUND = {t: 'multisets of <= %d peripherals over %d names x %d centres; all '
                 KMAX[t], len(PERIPH), len(CENTRES), PAIRMAX[t])
          for t in KMAX}
 RULE = ('every (centre, ordering, run-length spelling) over the stated '
-        'alphabets is constructed through Group(...), Group.parse(...) and as '
-        'a key of a synthetic library file; a case is non-trivial when its '
+        'alphabets is constructed through Group(...) (list, tuple, one-shot iterator, '
+        'generator), Group.parse(...) and as a key of a synthetic library file '
+        '(loaded twice: two scheme objects); a case is non-trivial when its '
         'text differs from the canonical name of its group (so the '
         'normalisation has work to do) or, for pairs, when the two identities '
         'differ in exactly one peripheral or one repeat count')
@@ -99,7 +100,16 @@ def _check_one(R, G, centre, ms, seq, text, how):
                order=list(seq), text=text, how=how)
     try:
         g0 = G(None, centre, sorted(ms))
-        g = G(None, centre, list(seq)) if how == 'ctor' else G.parse(None, text)
+        if how == 'ctor':
+            g = G(None, centre, list(seq))
+        elif how == 'ctor-tuple':
+            g = G(None, centre, tuple(seq))
+        elif how == 'ctor-iterator':
+            g = G(None, centre, iter(list(seq)))
+        elif how == 'ctor-generator':
+            g = G(None, centre, (p for p in seq))
+        else:
+            g = G.parse(None, text)
         probs = []
         if not (g == g0):
             probs.append('not equal to the canonical object')
@@ -136,8 +146,9 @@ def run_spell(R, centre, k, first):
                 continue
             if canon is None:
                 canon = Group(None, centre, sorted(ms)).name
-            R.evals += 1
-            _check_one(R, Group, centre, ms, seq, None, 'ctor')
+            R.evals += 4
+            for how in ('ctor', 'ctor-tuple', 'ctor-iterator', 'ctor-generator'):
+                _check_one(R, Group, centre, ms, seq, None, how)
             for text in spellings(centre, seq):
                 R.evals += 1
                 if text != canon:
@@ -268,6 +279,30 @@ def run_library(R, tier):
                     ident(c, ms), spelled[n], '; '.join(probs)),
                     dict(kind='library', centre=c, multiset=list(ms),
                          text=spelled[n]))
+        # the same file loaded a second time: a second scheme OBJECT; groups
+        # bound to either must be interchangeable
+        lib2 = GroupLibrary.Load(os.path.join(d, 'library.yaml'))
+        for n, (c, ms) in enumerate(ids):
+            R.evals += 1
+            R.nontrivial += 1
+            g1 = Group(lib.scheme, c, list(ms))
+            g2 = Group(lib2.scheme, c, list(reversed(ms)))
+            bad = None
+            try:
+                if not (g1 == g2) or (g1 != g2) or hash(g1) != hash(g2):
+                    bad = 'equal identities bound to two scheme objects compare unequal'
+                elif g2 not in lib or g1 not in lib2 or \
+                        lib[g2]['thermochem'].ND_H_ref != n + 0.5 or \
+                        lib2[g1]['thermochem'].ND_H_ref != n + 0.5:
+                    bad = 'a group bound to one scheme object does not index the other library'
+                elif len({g1, g2}) != 1:
+                    bad = 'set of two equal groups has two elements'
+            except Exception as e:     # noqa
+                bad = 'raised %s' % type(e).__name__
+            R.outcomes['two-schemes:%s' % ('ok' if not bad else 'bad')] += 1
+            if bad:
+                R.violation('library:two-scheme-objects', '%s: %s' % (ident(c, ms), bad),
+                            dict(kind='library', centre=c, multiset=list(ms), text='(two loads)'))
         if len(lib) != len(ids):
             R.violation('library:size', 'library has %d entries for %d '
                         'distinct identities' % (len(lib), len(ids)),
